@@ -24,7 +24,122 @@ import (
 //   - a failed transaction leaves the database as it was.
 const c07ReuseCases = 24
 
+// c07OverlapCase: the next transaction on the context starts while the commit actions of the previous one are still
+// running (the first action of every transaction waits until the following transaction is over). Every transaction
+// registers two commit actions: each runs exactly once iff its transaction committed.
+func c07OverlapCase(c *core.Ctx, idx int) { overlapCase(c, idx, "C07") }
+
+// overlapCase is shared by C07 (actions of failed transactions) and C08 (commit actions once per committed transaction).
+func overlapCase(c *core.Ctx, idx int, prop string) {
+	r := c.Rand()
+	def := &schema.StoreDef{Type: "boxes", BasePath: []string{"stores"}, Fields: []schema.Field{{Name: "label", Kind: schema.KStr}},
+		Unique: []schema.UniqueDef{{Field: "label", Nullable: true}}}
+	sc := schema.Build([]*schema.StoreDef{def})
+	path := c.TempFile("c07o")
+	db, err := sc.OpenDb(path)
+	if err != nil {
+		c.Violation(prop+" setup", err.Error(), nil)
+		return
+	}
+	defer func() { _ = db.Close(); _ = os.Remove(path) }()
+	st := sc.St("boxes")
+	ctx := boltz.NewMutateContext(context.Background())
+	var mu sync.Mutex
+	runs := map[string]int{}
+	n := 3 + r.Intn(3)
+	gates := make([]chan struct{}, n)
+	for i := range gates {
+		gates[i] = make(chan struct{})
+	}
+	var plan []string
+	committed := map[int]bool{}
+	boom := errors.New("boom")
+	for t := 0; t < n; t++ {
+		t := t
+		kind := core.Pick(r, []string{"commits", "commits", "caller error after registering", "rejected operation"})
+		plan = append(plan, kind)
+		run := db.Update
+		if (idx+t)%4 == 3 {
+			run = db.Batch
+		}
+		err := run(ctx, func(mctx boltz.MutateContext) error {
+			mctx.AddCommitAction(func() {
+				select { // still running while the next transaction registers its actions
+				case <-gates[t]:
+				case <-time.After(3 * time.Second):
+				}
+				mu.Lock()
+				runs[fmt.Sprintf("%d.a", t)]++
+				mu.Unlock()
+			})
+			mctx.AddCommitAction(func() {
+				mu.Lock()
+				runs[fmt.Sprintf("%d.b", t)]++
+				mu.Unlock()
+			})
+			if err := st.Store.Create(mctx, &schema.Ent{Id: fmt.Sprintf("b%d", t), Typ: "boxes", V: map[string]any{"label": fmt.Sprintf("l%d", t)}}); err != nil {
+				return err
+			}
+			switch kind {
+			case "rejected operation":
+				return st.Store.Create(mctx, &schema.Ent{Id: fmt.Sprintf("b%d-dup", t), Typ: "boxes", V: map[string]any{"label": fmt.Sprintf("l%d", t)}})
+			case "caller error after registering":
+				return boom
+			}
+			return nil
+		})
+		c.Eval()
+		committed[t] = err == nil
+		if (err == nil) != (kind == "commits") {
+			c.Violationf(prop+" context reuse: transaction outcome ("+kind+")", map[string]any{"transactions": plan}, "returned %v", err)
+		}
+		if t > 0 {
+			close(gates[t-1]) // the previous transaction's first action may finish now
+		}
+	}
+	close(gates[n-1])
+	want := 0
+	for _, ok := range committed {
+		if ok {
+			want += 2
+		}
+	}
+	for i := 0; i < 500; i++ {
+		mu.Lock()
+		got := 0
+		for _, k := range runs {
+			got += k
+		}
+		mu.Unlock()
+		if got >= want {
+			break
+		}
+		time.Sleep(time.Millisecond)
+	}
+	time.Sleep(10 * time.Millisecond)
+	mu.Lock()
+	defer mu.Unlock()
+	info := map[string]any{"transactions": plan, "commit_action_runs": fmt.Sprint(runs)}
+	c.Count("context_reuse_histories_with_overlapping_commit_actions", 1)
+	c.Nontrivial("c07overlap", fmt.Sprint(plan))
+	for t := 0; t < n; t++ {
+		for _, a := range []string{"a", "b"} {
+			k := fmt.Sprintf("%d.%s", t, a)
+			switch {
+			case committed[t] && runs[k] != 1:
+				c.Violationf(prop+" context reuse: a commit action of a committed transaction ran "+map[bool]string{true: "more than once", false: "not at all"}[runs[k] > 1]+" (next transaction started while the actions were running)", info, "action %s of transaction %d (%s): %d runs", k, t, plan[t], runs[k])
+			case !committed[t] && runs[k] != 0:
+				c.Violationf(prop+" context reuse: the commit action of a failed transaction ran (it started while the previous transaction's actions were running)", info, "action %s of transaction %d (%s): %d runs", k, t, plan[t], runs[k])
+			}
+		}
+	}
+}
+
 func c07ReuseCase(c *core.Ctx, idx int) {
+	if idx%3 == 1 {
+		c07OverlapCase(c, idx)
+		return
+	}
 	r := c.Rand()
 	def := &schema.StoreDef{Type: "boxes", BasePath: []string{"stores"}, Fields: []schema.Field{{Name: "label", Kind: schema.KStr}},
 		Unique: []schema.UniqueDef{{Field: "label", Nullable: true}}}
